@@ -12,8 +12,10 @@
 (*   - every Reader object keeps, per file, the length of its memory mapping; it re-maps *)
 (*     when the wanted range ends beyond the mapping (RemapRule) and fails with an       *)
 (*     error - or, under the old rule, panics - if the range is still out of reach;     *)
-(*   - a get holds the keydir shard read lock from lookup to the end of the read, the   *)
-(*     merger needs the shard write lock to re-point an entry, so it waits;             *)
+(*   - a get holds the keydir shard read lock from lookup to the end of the read; the   *)
+(*     merger iterates with DashMap::iter_mut, i.e. it holds the shard WRITE lock from   *)
+(*     before it copies an entry until after it wrote the entry's hint (copy, re-point,  *)
+(*     hint), so it waits for gets inside a read and lookups wait for it;                *)
 (*   - the merger copies live entries of the selected (here: all non-active) files to a *)
 (*     new file, re-points them one by one, then unlinks the inputs; a reader that has  *)
 (*     a file mapped keeps reading it after the unlink.                                 *)
@@ -73,6 +75,8 @@ Drop(f, x) == [y \in (DOMAIN f) \ {x} |-> f[y]]
 WriterFree == wr = Idle /\ mg = Idle
 \* the shard lock: readers between lookup and the end of the read hold it shared
 ShardReadHeld == HoldShardLock /\ \E r \in Readers : rd[r].pc \in {"map", "slice"}
+\* the merger holds it exclusively from the copy of an entry to the end of that loop iteration
+ShardWriteHeld == mg.pc \in {"repoint", "hint"}
 
 -----------------------------------------------------------------------------------------
 (* Writer: put(k, v) / delete(k) *)
@@ -117,7 +121,7 @@ Pop(r, k) ==
     /\ UNCHANGED <<flen, keydir, active, wr, maps, mg, model, nw, nm, panicked, hist>>
 \* keydir.get: the linearization point of a get; the shard stays read-locked
 Lookup(r) ==
-    /\ rd[r].pc = "lookup"
+    /\ rd[r].pc = "lookup" /\ ~ShardWriteHeld
     /\ LET e == keydir[rd[r].k] IN
         IF e = NoKE
           THEN /\ rd' = [rd EXCEPT ![r] = Idle]
@@ -167,20 +171,34 @@ StartMerge ==
     /\ mg' = [pc |-> "copy", sel |-> DOMAIN flen, out |-> active + 1, k |-> None, pos |-> 0]
     /\ UNCHANGED <<keydir, active, wr, rd, pool, maps, model, nw, nr, panicked, hist>>
 MergeTodo == {k \in Keys : keydir[k] # NoKE /\ keydir[k].fid \in mg.sel}
-\* copy one entry (the bytes reach the output before the index is touched)
-MergeCopy(k) ==
-    /\ mg.pc = "copy" /\ k \in MergeTodo
+\* iter_mut yields the first entry: shard write lock, then the copy (the bytes reach the output
+\* before the index is touched)
+CopyOf(k) ==
     /\ flen' = [flen EXCEPT ![mg.out] = @ + keydir[k].len]
     /\ mg' = [mg EXCEPT !.pc = "repoint", !.k = k, !.pos = flen[mg.out]]
+MergeCopy(k) ==
+    /\ mg.pc = "copy" /\ k \in MergeTodo /\ ~ShardReadHeld
+    /\ CopyOf(k)
     /\ UNCHANGED <<keydir, active, wr, rd, pool, maps, model, nw, nr, nm, panicked, hist>>
-\* iter_mut holds the shard WRITE lock: waits while a get is inside its read
+\* keydir_entry.fileid/pos = ... in place, under the lock taken for the copy
 MergeRepoint ==
-    /\ mg.pc = "repoint" /\ ~ShardReadHeld
+    /\ mg.pc = "repoint"
     /\ keydir' = [keydir EXCEPT ![mg.k] = [@ EXCEPT !.fid = mg.out, !.pos = mg.pos]]
-    /\ mg' = [mg EXCEPT !.pc = "copy", !.k = None]
+    /\ mg' = [mg EXCEPT !.pc = "hint"]
     /\ UNCHANGED <<flen, active, wr, rd, pool, maps, model, nw, nr, nm, panicked, hist>>
+\* the hint is written, the guard of this entry is dropped, and the iterator moves on: either it
+\* locks and copies the next entry (waiting for gets inside a read) or the loop is over
+MergeHintNext ==
+    /\ mg.pc = "hint"
+    /\ IF MergeTodo = {}
+         THEN /\ mg' = [mg EXCEPT !.pc = "finishing", !.k = None]
+              /\ UNCHANGED flen
+         ELSE /\ ~ShardReadHeld
+              /\ \E k \in MergeTodo : CopyOf(k)
+    /\ UNCHANGED <<keydir, active, wr, rd, pool, maps, model, nw, nr, nm, panicked, hist>>
 MergeUnlinkAll ==
-    /\ mg.pc = "copy" /\ MergeTodo = {}
+    /\ \/ (mg.pc = "copy" /\ MergeTodo = {})
+       \/ mg.pc = "finishing"
     /\ flen' = With([f \in (DOMAIN flen) \ mg.sel |-> flen[f]], mg.out + 1, 0)
     /\ active' = mg.out + 1
     /\ mg' = Idle
@@ -191,9 +209,9 @@ Next ==
     \/ \E k \in Keys, v \in Vals \cup {None} : StartPut(k, v)
     \/ WriteHead \/ WriteRest \/ Publish
     \/ \E r \in Readers : (\E k \in Keys : Pop(r, k)) \/ Lookup(r) \/ MapStep(r) \/ Slice(r)
-    \/ StartMerge \/ (\E k \in Keys : MergeCopy(k)) \/ MergeRepoint \/ MergeUnlinkAll
+    \/ StartMerge \/ (\E k \in Keys : MergeCopy(k)) \/ MergeRepoint \/ MergeHintNext \/ MergeUnlinkAll
 Fairness == /\ WF_vars(WriteHead \/ WriteRest \/ Publish)
-            /\ WF_vars((\E k \in Keys : MergeCopy(k)) \/ MergeRepoint \/ MergeUnlinkAll)
+            /\ WF_vars((\E k \in Keys : MergeCopy(k)) \/ MergeRepoint \/ MergeHintNext \/ MergeUnlinkAll)
             /\ \A r \in Readers : WF_vars(Lookup(r) \/ MapStep(r) \/ Slice(r))
 Spec == Init /\ [][Next]_vars /\ Fairness
 
